@@ -23,7 +23,7 @@ for p in props:
                 "design_ref": m.get("design_ref", "DESIGN.md section 5/" + pid),
             },
             "level_note": m.get("note", "trusted base: gosym interpreter + intrinsics listed in the evidence file, z3 4.8.12; bounds as stated in checks/%s.json" % pid),
-            "technique": "symbolic execution of go/ssa + SMT (z3), counterexamples replayed natively with go test -overlay",
+            "technique": "symbolic execution of the real go/ssa code + SMT (z3 4.8.12): inputs, faults, histories, map orders, wall clock and environment are solver variables; every assertion is a query PC and not(assert); counterexamples and sampled completed paths are replayed natively (go test -c -overlay) against the real build",
         })
     else:
         na.append({"property_id": pid, "reason": m.get("not_applicable", "check not built yet (work in progress)")})
